@@ -566,6 +566,25 @@ def r058(prog, chk):
     ok2 = bool(loop.orelse) and any(isinstance(s, ast.Raise) for s in loop.orelse)
     chk.ob("R05.8", f"{ms.short}|a bucket's pairs go to exactly one merged bucket (break after the first match; no match raises)", ok and ok2, where(ms, ext[0]),
            detail="result[...].extend(pairs); break / else: raise", message="mergeScripts can copy a bucket's pairs into several merged buckets (pair applied twice) or drop them silently")
+    # mergeScripts computes the closure: the merging pass is repeated until a pass merges nothing
+    unions = [n for n in A.body_nodes(ms.node) if isinstance(n, ast.AugAssign) and isinstance(n.op, ast.BitOr)]
+    unions = [u for u in unions if any(isinstance(x, ast.Call) and A.callee_name(x) == "isdisjoint" for g in conds(prog, ms, u) for x in ast.walk(g.test))]
+    need(len(unions) == 1, "cannot interpret mergeScripts: union of overlapping buckets")
+    u = unions[0]
+    whiles = [a for a in ix.ancestors(u) if isinstance(a, ast.While)]
+    fix = None
+    for w in whiles:
+        if not isinstance(w.test, ast.Name):
+            continue
+        flag = w.test.id
+        sets_true = [s_ for s_ in ast.walk(w) if isinstance(s_, ast.Assign) and isinstance(s_.targets[0], ast.Name) and s_.targets[0].id == flag and A.is_const(s_.value, True)]
+        sets_false = [s_ for s_ in w.body if isinstance(s_, ast.Assign) and isinstance(s_.targets[0], ast.Name) and s_.targets[0].id == flag and A.is_const(s_.value, False)]
+        same_branch = any(ix.parent(s_) is ix.parent(u) or s_ in getattr(ix.parent(u), "orelse", []) or s_ in getattr(ix.parent(u), "body", []) for s_ in sets_true)
+        if sets_true and sets_false and same_branch:
+            fix = w
+    chk.ob("R05.8", f"{ms.short}|merging is repeated until a pass merges nothing (closure)", fix is not None, where(ms, u), detail="while merged: merged = False; ...; common |= scripts; merged = True",
+           message="mergeScripts merges overlapping buckets in a single pass: a bucket skipped before its partner grew is never revisited, overlapping buckets survive "
+                   "and a script's pairs end up in a lookup that is not registered for it")
     # yield sites of the partitioners: one yield per direction combination
     for q in (f"{KERN1}:partitionByScript", f"{KERN2}:partition_by_direction"):
         f = ix.get_func(q)
@@ -578,6 +597,8 @@ def r058(prog, chk):
 
 
 MUTANTS = [
+    M("bucket merging done in a single pass (seeded C05a)", "ufo2ft/featureWriters/kernFeatureWriter.py", "mergeScripts",
+      "merged = True\ncommon |= scripts", "common |= scripts", rule="R05.8"),
     M("ordering key compares side names before class-ness", "ufo2ft/featureWriters/kernFeatureWriter.py", "KerningPair.__lt__",
       "selfTuple = (self.firstIsClass, self.secondIsClass, self.side1, self.side2)", "selfTuple = (self.side1, self.side2, self.firstIsClass, self.secondIsClass)", rule="R05.1"),
     M("ordering key swaps first/second class flag on one operand", "ufo2ft/featureWriters/kernFeatureWriter.py", "KerningPair.__lt__",
